@@ -228,6 +228,70 @@ def main(level='full'):
     for t in ['0101', '01 01', '0_1', '2', '0b1', '\t1']:
         d.cmp(('parse01', t), lambda: R.bitarray(t), lambda: M.bitarray(t))
 
+    # --- little-endian bitarrays (a user can hand one to bitstring): conversions, propagation of the endianness, mixing
+    def en(x):
+        return (x.endian, x.to01()) if type(x).__name__ in ('bitarray', 'frozenbitarray') else x
+    le_contents = list(all_bits(4)) + ['10110010', '0000000100110111', '101100101', '1' * 12, '00000001001101110']
+    for s in le_contents:
+        for e1 in ('little', 'big'):
+            a, m = R.bitarray(s, endian=e1), M.bitarray(s, endian=e1)
+            d.cmp(('le-ctor', s, e1), lambda: en(a), lambda: en(m))
+            d.cmp(('le-copy', s, e1), lambda: en(R.bitarray(a)), lambda: en(M.bitarray(m)))
+            d.cmp(('le-frozen', s, e1), lambda: en(R.frozenbitarray(a)), lambda: en(M.frozenbitarray(m)))
+            for e2 in ('little', 'big', 'middle'):
+                d.cmp(('le-convert', s, e1, e2), lambda: en(R.bitarray(a, endian=e2)), lambda: en(M.bitarray(m, endian=e2)))
+            d.cmp(('le-tobytes', s, e1), lambda: a.tobytes(), lambda: m.tobytes())
+            d.cmp(('le-ba2int', s, e1), lambda: RU.ba2int(a), lambda: MU.ba2int(m))
+            d.cmp(('le-ba2int-s', s, e1), lambda: RU.ba2int(a, signed=True), lambda: MU.ba2int(m, signed=True))
+            d.cmp(('le-ba2hex', s, e1), lambda: RU.ba2hex(a), lambda: MU.ba2hex(m))
+            d.cmp(('le-ba2oct', s, e1), lambda: RU.ba2base(8, a), lambda: MU.ba2base(8, m))
+            d.cmp(('le-slice', s, e1), lambda: en(a[1:]), lambda: en(m[1:]))
+            d.cmp(('le-stepslice', s, e1), lambda: en(a[::-1]), lambda: en(m[::-1]))
+            d.cmp(('le-invert', s, e1), lambda: en(~a), lambda: en(~m))
+            d.cmp(('le-mul', s, e1), lambda: en(a * 2), lambda: en(m * 2))
+            d.cmp(('le-shift', s, e1), lambda: en(a << 1) if s else None, lambda: en(m << 1) if s else None)
+            d.cmp(('le-copy()', s, e1), lambda: en(a.copy()), lambda: en(m.copy()))
+            d.cmp(('le-find', s, e1), lambda: a.find(R.bitarray('1')), lambda: m.find(M.bitarray('1')))
+
+            def fb(mod, x):
+                y = mod.bitarray(x)
+                y.frombytes(b'\x01\xa0')
+                return en(y)
+            d.cmp(('le-frombytes', s, e1), lambda: fb(R, a), lambda: fb(M, m))
+            for t in ('', '1', '0110', s):
+                for e2 in ('little', 'big'):
+                    b2, m2 = R.bitarray(t, endian=e2), M.bitarray(t, endian=e2)
+                    d.cmp(('le-add', s, e1, t, e2), lambda: en(a + b2), lambda: en(m + m2))
+                    d.cmp(('le-eq', s, e1, t, e2), lambda: a == b2, lambda: m == m2)
+                    d.cmp(('le-and', s, e1, t, e2), lambda: en(a & b2), lambda: en(m & m2))
+                    d.cmp(('le-xor', s, e1, t, e2), lambda: en(a ^ b2), lambda: en(m ^ m2))
+
+                    def ext(mod, x, y):
+                        z = mod.bitarray(x)
+                        z.extend(y)
+                        return en(z)
+                    d.cmp(('le-extend', s, e1, t, e2), lambda: ext(R, a, b2), lambda: ext(M, m, m2))
+
+                    def ior(mod, x, y):
+                        z = mod.bitarray(x)
+                        z |= y
+                        return en(z)
+                    d.cmp(('le-ior', s, e1, t, e2), lambda: ior(R, a, b2), lambda: ior(M, m, m2))
+
+                    def setsl(mod, x, y):
+                        z = mod.bitarray(x)
+                        z[0:1] = y
+                        return en(z)
+                    d.cmp(('le-setslice', s, e1, t, e2), lambda: setsl(R, a, b2), lambda: setsl(M, m, m2))
+    for i in (0, 1, 5, 255, 256, -1, -128):
+        for length in (None, 1, 8, 9):
+            for signed in (False, True):
+                d.cmp(('le-int2ba', i, length, signed), lambda: en(RU.int2ba(i, length=length, endian='little', signed=signed)),
+                      lambda: en(MU.int2ba(i, length=length, endian='little', signed=signed)))
+    for b in [b'', b'\x01', b'\x80\xff']:
+        d.cmp(('le-buffer', b), lambda: en(R.bitarray(buffer=b, endian='little')), lambda: en(M.bitarray(buffer=b, endian='little')))
+    d.cmp('le-zeros', lambda: en(RU.zeros(3, 'little')), lambda: en(MU.zeros(3, 'little')))
+
     bad = [b for b in d.bad if b]
     print(f"modelcheck[{level}]: {d.n} operations compared, {len(d.bad)} disagreements, {time.time() - t0:.1f}s")
     print('  groups:', d.groups)
